@@ -399,7 +399,7 @@ class Exchange(Scenario):
         exp_paths = {decoded}
         return {
             "head": head, "wire_body": wire_body, "body": body, "method": method, "exp_env": exp_env, "exp_paths": exp_paths,
-            "query": query, "framing": framing, "mal": mal, "pieces": pieces, "wire_path": wire_path, "path": path,
+            "query": query, "framing": framing, "mal": mal, "pieces": pieces, "wire_path": wire_path, "path": path, "wire_target": target,
         }
 
     def execute(self, case: dict) -> Outcome:
@@ -515,6 +515,12 @@ class Exchange(Scenario):
             exp_paths = {"/" + p for p in exp_paths} | exp_paths
         if env.get("PATH_INFO") not in exp_paths:
             out.violate(f"{pre}/path-differs/target={kind}", f"PATH_INFO {env.get('PATH_INFO')!r} for request target {rq['wire_path']!r}, expected {sorted(exp_paths)}")
+        if env.get("SERVER_PROTOCOL") != case.get("req_version", "HTTP/1.1") and case.get("req_version") in ("HTTP/1.0", "HTTP/1.1"):
+            out.violate(f"{pre}/server-protocol-differs/{tag}", f"SERVER_PROTOCOL {env.get('SERVER_PROTOCOL')!r} vs request line {case.get('req_version')!r}")
+        if (env.get("REMOTE_ADDR"), env.get("SERVER_NAME"), env.get("SERVER_PORT"), env.get("wsgi.url_scheme"), env.get("SCRIPT_NAME")) != ("127.0.0.1", "127.0.0.1", "5000", "http", ""):
+            out.violate(f"{pre}/connection-variables-differ/{tag}", f"{[(k, env.get(k)) for k in ('REMOTE_ADDR', 'SERVER_NAME', 'SERVER_PORT', 'wsgi.url_scheme', 'SCRIPT_NAME')]}")
+        if env.get("REQUEST_URI") != rq["wire_target"] and not rq["wire_target"].startswith("//"):
+            out.violate(f"{pre}/request-uri-differs/target={(case.get('target') or {}).get('kind', 'origin')}", f"REQUEST_URI {env.get('REQUEST_URI')!r} vs request target {rq['wire_target']!r}")
         if env.get("QUERY_STRING") != rq["query"]:
             out.violate(f"{pre}/query-differs/target={kind}", f"QUERY_STRING {env.get('QUERY_STRING')!r} vs sent {rq['query']!r}")
         got_env = {k: v for k, v in env.items() if k.startswith("HTTP_") or k in ("CONTENT_TYPE", "CONTENT_LENGTH")}
